@@ -217,6 +217,26 @@ impl Engine {
         }
     }
 
+    /// Waits for an event at index >= `from` satisfying `pred`, independently of the shared cursor
+    /// (so waiting for a stderr event never swallows a stdout line, and vice versa).
+    pub fn wait_since(&mut self, from: usize, timeout_ms: u64, pred: impl Fn(&Event) -> bool) -> Option<usize> {
+        let deadline = Instant::now() + Duration::from_millis(timeout_ms);
+        let mut i = from;
+        loop {
+            while i < self.log.len() {
+                if self.log[i].src != Src::In && pred(&self.log[i]) {
+                    return Some(i);
+                }
+                i += 1;
+            }
+            let now = Instant::now();
+            if now >= deadline || self.disconnected {
+                return None;
+            }
+            self.pump(deadline - now);
+        }
+    }
+
     pub fn wait_out(&mut self, timeout_ms: u64, prefix: &str) -> Option<usize> {
         let p = prefix.to_string();
         self.wait_for(timeout_ms, move |e| e.src == Src::Out && e.line.starts_with(&p))
@@ -312,7 +332,11 @@ impl Engine {
                     Src::OutEof => "<EOF",
                     Src::ErrEof => "!EOF",
                 };
-                format!("{:>8}us {tag} {}", e.t_us, e.line)
+                let mut l: String = e.line.chars().take(150).collect();
+                if l.len() < e.line.len() {
+                    l.push_str("...");
+                }
+                format!("{:>8}us {tag} {l}", e.t_us)
             })
             .collect();
         if v.len() > max {
